@@ -103,6 +103,11 @@ def _check(ctx: Ctx) -> None:
     # --- KEEP
     loop = message_loop(fi.node)
     out = output_list_name(fi.node)
+    if loop is not None and out is None:
+        ctx.violation("KEEP", f"{FN}: the result list is installed as the sequence's event list", function=FN,
+                      construct="the operation never installs its result (`self._messages = <result list>` is missing)",
+                      message="the rebuilt list is dropped on return: the sequence is left exactly as it was", file=fi.file, node=fi.node)
+        return
     if loop is None or out is None:
         raise AnalysisError(f"{FN}: message loop / output list not found")
     types = p.enum_order("MessageType")
